@@ -205,7 +205,9 @@ def _random_witness(assertions, tries=200, seed=1):
             return f
 
         fns = {n: mk(n) for n in ufs}
-        fns.update({"log": lambda x: __import__("math").log(x) if x > 0 else 0.0, "exp": lambda x: __import__("math").exp(min(x, 50))})
+        import math as _m
+
+        fns.update({"log": lambda x: _m.log(x) if x > 0 else 0.0, "exp": lambda x: _m.exp(min(x, 50)), "sin": _m.sin, "cos": _m.cos, "tan": _m.tan, "tanh": _m.tanh, "arctan": _m.atan})
         try:
             # defining equalities  var == term  are satisfied by construction
             for _round in range(3):
@@ -219,6 +221,11 @@ def _random_witness(assertions, tries=200, seed=1):
                             elif r.op == "var" and r.sort != "B":
                                 env[r] = T.evaluate(l, env, ufs=fns)
             vals = T.evaluate(list(assertions), env, ufs=fns)
+            # equalities between float-evaluated sides: up to rounding
+            for k, a in enumerate(assertions):
+                if not vals[k] and a.op == "cmp" and a.args[0] == "==" and a.args[1].sort != "B":
+                    l, r = T.evaluate([a.args[1], a.args[2]], env, ufs=fns)
+                    vals[k] = abs(float(l) - float(r)) <= 1e-9 * (1 + abs(float(l)))
         except Exception:
             continue
         if all(bool(x) for x in vals):
